@@ -59,7 +59,7 @@ fn run_p2(thorough: bool, seed: u64, corpus: &[String], only: Option<&str>) {
     if only == Some("corpus") {
         return;
     }
-    let max_runs = if thorough { 30000 } else { 3500 };
+    let max_runs = if thorough { 6000 } else { 3500 };
     for sc in p2_scenarios(thorough) {
         if only.is_some() && only != Some(sc.name.as_str()) {
             continue;
@@ -71,7 +71,7 @@ fn run_p2(thorough: bool, seed: u64, corpus: &[String], only: Option<&str>) {
             p2::PARK,
             max_runs,
             400,
-            if thorough { usize::MAX } else { 3 },
+            if thorough { 5 } else { 3 },
             |inst, out| {
                 let obs = p2::finish(inst);
                 if !out.feasible {
@@ -81,7 +81,7 @@ fn run_p2(thorough: bool, seed: u64, corpus: &[String], only: Option<&str>) {
                 println!("{}", p2::case_json(&sc, &out, &obs, "enum"));
             },
         );
-        println!("# p2 scenario={} runs={} exhaustive={} preemption_bound={} infeasible={}", sc.name, runs, exhausted, if thorough { "none" } else { "3" }, infeasible);
+        println!("# p2 scenario={} runs={} exhaustive={} preemption_bound={} infeasible={}", sc.name, runs, exhausted, if thorough { "5" } else { "3" }, infeasible);
     }
     if thorough {
         let mut rng = Rng::new(seed);
@@ -150,7 +150,7 @@ fn run_core(proto: &str, thorough: bool, seed: u64, corpus: &[String], only: Opt
     if only == Some("corpus") {
         return;
     }
-    let max_runs = if thorough { 20000 } else { 1200 };
+    let max_runs = if proto == "P1F" { 4000 } else if thorough { 6000 } else { 1200 };
     for sc in core_scenarios(thorough) {
         if only.is_some() && only != Some(sc.name.as_str()) {
             continue;
@@ -161,7 +161,7 @@ fn run_core(proto: &str, thorough: bool, seed: u64, corpus: &[String], only: Opt
             park_of(proto),
             max_runs,
             600,
-            if thorough { 3 } else { 2 },
+            if proto == "P1F" { 2 } else if thorough { 3 } else { 2 },
             |inst, out| {
                 let obs = coreapp::finish(&inst);
                 if !out.feasible {
@@ -170,7 +170,7 @@ fn run_core(proto: &str, thorough: bool, seed: u64, corpus: &[String], only: Opt
                 println!("{}", coreapp::case_json(proto, &sc, &inst.setup_trace, &out, &obs, "enum"));
             },
         );
-        println!("# {} scenario={} runs={} exhaustive={} preemption_bound={} infeasible={}", proto.to_lowercase(), sc.name, runs, exhausted, if thorough { 3 } else { 2 }, infeasible);
+        println!("# {} scenario={} runs={} exhaustive={} preemption_bound={} infeasible={}", proto.to_lowercase(), sc.name, runs, exhausted, if proto == "P1F" { 2 } else if thorough { 3 } else { 2 }, infeasible);
         if thorough {
             let mut rng = Rng::new(seed ^ 0x51);
             for _ in 0..300 {
